@@ -64,6 +64,7 @@ func main() {
 	famCerts(r)
 	famReal(r)
 	famSanitise(r)
+	famTargetKinds(r)
 	straceC06(r)
 }
 
